@@ -56,7 +56,34 @@ THuge == /\ IsEvent("huge")
                       /\ sm.other = Convert(sm.file, Log[l].wfile, Log[l].wother)
          /\ UNCHANGED kase
 
-TNext == TGolden \/ TDump \/ THuge
+\* {e:"slice", axis, k, in, out}: examples/core/slice3dto2d run on a file of catalogue type 6: it loads
+\* affine<linear<strided<size3, array<float3>>>>, builds a field from the inner storage object (Lifecycle!Adopt, const form),
+\* copies the plane  coordinate[axis] = k  through views into a new strided<size2, array<float3>> field and dumps it.  TLC
+\* parses both files and demands: extents = the two remaining extents, in order; every stored vector of the output = the
+\* stored vector of the input at the coordinate with k inserted at `axis'; nothing else in the file.
+SliceOutType == <<Str("strided", 2), Arr(2, 3)>>
+ExtOf(cfg, n) == [d \in 1..n |-> cfg[4 * (d - 1) + 1]]              \* extents below 2^16: the low limb of each 64-bit word
+TSlice ==
+  /\ IsEvent("slice")
+  /\ LET pin == Parse(TypeCat[6], Log[l].in)
+         pout == Parse(SliceOutType, Log[l].out)
+     IN /\ pin.ok /\ pin.rest = <<>> /\ pout.ok /\ pout.rest = <<>>
+        /\ Ser(pout.layers) = Log[l].out
+        /\ LET e3 == ExtOf(pin.layers[3].cfg, 3)
+               e2 == ExtOf(pout.layers[1].cfg, 2)
+               ax == Log[l].axis   k == Log[l].k
+               rest == IF ax = 1 THEN <<2, 3>> ELSE IF ax = 2 THEN <<1, 3>> ELSE <<1, 2>>
+               din == pin.layers[4].data   dout == pout.layers[2].data
+               C3(x, y) == IF ax = 1 THEN <<k, x, y>> ELSE IF ax = 2 THEN <<x, k, y>> ELSE <<x, y, k>>
+               Pos3(c) == (c[1] * e3[2] + c[2]) * e3[3] + c[3]
+           IN /\ k < e3[ax]
+              /\ e2 = <<e3[rest[1]], e3[rest[2]]>>
+              /\ pout.layers[2].count = e2[1] * e2[2]
+              /\ \A x \in 0..(e2[1] - 1), y \in 0..(e2[2] - 1), q \in 1..3 :
+                    dout[(x * e2[2] + y) * 3 + q] = din[Pos3(C3(x, y)) * 3 + q]
+  /\ UNCHANGED kase
+
+TNext == TGolden \/ TDump \/ THuge \/ TSlice
 TSpec == TInit /\ [][TNext]_tvars
 Accepted == IF TLCGet("stats").diameter - 1 = Len(Log)
             THEN TRUE
